@@ -6,13 +6,16 @@ import seedtest
 
 ROOT = os.path.dirname(os.path.dirname(os.path.abspath(__file__)))
 only = sys.argv[1:]
+OUT = os.environ.get("SEED_OUT", "out2")
+KEYS = os.environ.get("SEED_KEYS", "C,D,E").split(",")
+REF = os.environ.get("SEED_REF", "R")
 results = {}
 for prop in sorted(os.listdir("/tmp/seed")):
-    out = os.path.join("/tmp/seed", prop, "out2")
+    out = os.path.join("/tmp/seed", prop, OUT)
     if not os.path.isfile(os.path.join(out, "meta.json")) or (only and prop not in only):
         continue
     meta = json.load(open(os.path.join(out, "meta.json")))
-    for k in ("C", "D", "E"):
+    for k in KEYS:
         if k not in meta or not os.path.exists(os.path.join(out, k + ".diff")):
             continue
         m = meta[k]
@@ -38,10 +41,10 @@ for prop in sorted(os.listdir("/tmp/seed")):
             json.dump(entry, open(os.path.join(d, "meta.json"), "w"), indent=1)
         results[sid] = entry
         print(sid, "confirmed" if conf.get("confirmed") else "NOT CONFIRMED", entry.get("caught_by_quick_check"), flush=True)
-    if "R" in meta and os.path.exists(os.path.join(out, "R.diff")):
-        sid = prop + "-R"
-        patch = os.path.join(out, "R.diff")
-        entry = {"property": prop, "summary": meta["R"].get("summary"), "files": meta["R"].get("files"), "kind": "behaviour-preserving refactor"}
+    if REF in meta and os.path.exists(os.path.join(out, REF + ".diff")):
+        sid = prop + "-" + REF
+        patch = os.path.join(out, REF + ".diff")
+        entry = {"property": prop, "summary": meta[REF].get("summary"), "files": meta[REF].get("files"), "kind": "behaviour-preserving refactor"}
         try:
             entry["check"] = seedtest.check(patch, [prop])
             entry["silent"] = entry["check"][prop]["exit"] == 0
@@ -53,4 +56,4 @@ for prop in sorted(os.listdir("/tmp/seed")):
             entry["error"] = str(ex)
         results[sid] = entry
         print(sid, "refactor silent:", entry.get("silent"), entry.get("error", ""), flush=True)
-json.dump(results, open(os.path.join(ROOT, ".work", "seedresults2-%s.json" % ("-".join(only) or "all")), "w"), indent=1)
+json.dump(results, open(os.path.join(ROOT, ".work", "seedresults-%s-%s.json" % (OUT, "-".join(only) or "all")), "w"), indent=1)
